@@ -265,22 +265,66 @@ Qed.
 
 (** ** Whole histories *)
 
+Definition sim {O : Type} (okb : O -> bool)
+  (stepA stepB : table -> O -> table * result) : Prop :=
+  forall t o, nodupk t -> okb o = true ->
+    nodupk (fst (stepA t o)) /\
+    abs (fst (stepA t o)) = fst (stepB (abs t) o) /\
+    snd (stepA t o) = snd (stepB (abs t) o).
+
+Lemma run_sim {O : Type} (okb : O -> bool) stepA stepB :
+  sim okb stepA stepB ->
+  forall ops t, nodupk t -> forallb okb ops = true ->
+    nodupk (fst (run stepA t ops)) /\
+    abs (fst (run stepA t ops)) = fst (run stepB (abs t) ops) /\
+    snd (run stepA t ops) = snd (run stepB (abs t) ops).
+Proof.
+  intros Hs. induction ops as [|o ops IH]; intros t Hn Hok; cbn [run forallb] in *.
+  - auto.
+  - apply andb_prop in Hok. destruct Hok as [Ho Hops].
+    destruct (Hs t o Hn Ho) as (H1 & H2 & H3).
+    destruct (stepA t o) as [t1 r1]. destruct (stepB (abs t) o) as [s1 r1'].
+    cbn [fst snd] in *. subst.
+    destruct (IH t1 H1 Hops) as (H4 & H5 & H6).
+    destruct (run stepA t1 ops) as [t2 rs]. destruct (run stepB (abs t1) ops) as [s2 rs'].
+    cbn [fst snd] in *. subst. auto.
+Qed.
+
 Lemma run_refines step :
   step_refines step ->
   forall ops t, nodupk t -> forallb bop_okb ops = true ->
     nodupk (fst (run step t ops)) /\
     abs (fst (run step t ops)) = fst (run spec_step (abs t) ops) /\
     snd (run step t ops) = snd (run spec_step (abs t) ops).
+Proof. intros Hs. exact (run_sim bop_okb step spec_step Hs). Qed.
+
+(** ** Through the KV wrapper *)
+
+Definition uop_okb (u : uop) : bool :=
+  match u with
+  | UWalkPartial off n _ | UWalkPartialClass _ off n _ => (off <? two63) && (n <? two63)
+  | _ => true
+  end.
+
+Lemma kv_step_sim maxlen ordered hk jv step :
+  step_refines step ->
+  sim uop_okb (kv_step maxlen ordered hk jv step) (kv_step maxlen ordered hk jv spec_step).
 Proof.
-  intros Hs. induction ops as [|o ops IH]; intros t Hn Hok; cbn [run forallb] in *.
-  - auto.
-  - apply andb_prop in Hok. destruct Hok as [Ho Hops].
-    destruct (Hs t o Hn Ho) as (H1 & H2 & H3).
-    destruct (step t o) as [t1 r1]. destruct (spec_step (abs t) o) as [s1 r1'].
-    cbn [fst snd] in *. subst.
-    destruct (IH t1 H1 Hops) as (H4 & H5 & H6).
-    destruct (run step t1 ops) as [t2 rs]. destruct (run spec_step (abs t1) ops) as [s2 rs'].
-    cbn [fst snd] in *. subst. auto.
+  intros Hs t u Hn Hok.
+  assert (forall o, bop_okb o = true ->
+            nodupk (fst (step t o)) /\ abs (fst (step t o)) = fst (spec_step (abs t) o) /\
+            snd (step t o) = snd (spec_step (abs t) o)) as H by (intros; now apply Hs).
+  assert (forall o g, bop_okb o = true ->
+            nodupk (fst (post (step t o) g)) /\
+            abs (fst (post (step t o) g)) = fst (post (spec_step (abs t) o) g) /\
+            snd (post (step t o) g) = snd (post (spec_step (abs t) o) g)) as Hp.
+  { intros o g Ho. destruct (H o Ho) as (H1 & H2 & H3). unfold post. cbn [fst snd].
+    rewrite H3. auto. }
+  destruct u; cbn [kv_step uop_okb] in *; unfold with_key;
+    try (destruct (map_key maxlen ordered hk k); cbn [fst snd]; [|now auto]);
+    try (destruct ordered; cbn [fst snd]; [|now auto]);
+    try (apply Hp; exact Hok); try (apply H; exact Hok);
+    try (apply Hp; reflexivity); try (apply H; reflexivity).
 Qed.
 
 (** The reference map stays strictly sorted (it is a canonical form: equal
@@ -329,4 +373,18 @@ Theorem backends_agree ops :
 Proof.
   intros Hok. destruct (mem_refines_spec ops Hok) as [H1 H2].
   destruct (sql_refines_spec ops Hok) as [H3 H4]. split; congruence.
+Qed.
+
+Theorem kv_refines_spec maxlen ordered hk jv step uops :
+  step_refines step ->
+  forallb uop_okb uops = true ->
+  snd (run (kv_step maxlen ordered hk jv step) [] uops)
+  = snd (run (kv_step maxlen ordered hk jv spec_step) [] uops) /\
+  abs (fst (run (kv_step maxlen ordered hk jv step) [] uops))
+  = fst (run (kv_step maxlen ordered hk jv spec_step) [] uops).
+Proof.
+  intros Hs Hok.
+  destruct (run_sim uop_okb _ _ (kv_step_sim maxlen ordered hk jv step Hs) uops [] I Hok)
+    as (_ & H2 & H3).
+  split; [exact H3|exact H2].
 Qed.
